@@ -28,6 +28,12 @@ range(old, new) when growing, and updates count after both; the revocation
 pass clears an identity only under identity >= count and un-places.  C05.4:
 force_set_identity removes the forced identity from the pool.  C05.5: the
 placement record takes 'identity' from the model's instance.
+Added by the seeding rounds - C05.1 no placement is reachable after a release
+in the same iteration; C05.2 an instance leaves Cell.apps only after
+release_identity; C05.3 the revocation pass skips an instance only under
+identity None / no group / identity < count and compares with the group's
+count; C05.6 an identity group is dropped from the registry only when no
+instance references it (reference equality).
 Does NOT decide uniqueness over histories of count changes racing with
 restores (contents of sets over time).
 """
